@@ -190,6 +190,25 @@ def run_fs_family(prop, tier, seed):
     return report_and_exit(prop, ev, violations)
 
 
+def run_mut_family(prop, tier, seed):
+    from . import family_mut
+    nwl, nsched = {"quick": (16, 2), "thorough": (128, 8)}[tier]
+    ev = Evidence(prop, tier, seed, "fault_enumeration")
+    ev.rule = ("workload = objects + archive + thin archive (+members) + linker script with INPUT(); one "
+               "mutation {rewrite same bytes, append, replace by rename, touch} of one input, placed at "
+               "each of 13 phase boundaries (enumerated) and at random scheduler steps, threads 1/2/4, "
+               "fork/no-fork; obligation only when the mutation step lies in (Opened(f), VerifyStart). "
+               "distinct_nontrivial = distinct (workload, interleaving, file, action) with a context "
+               "switch")
+    ev.assumptions = ["changed files get a new mtime (inputs are pre-dated by the harness)",
+                      "the mutation is atomic with respect to wild (it happens at a scheduling point)"]
+    jobs = [{"prop": prop, "seed": seed, "index": i, "tier": tier, "schedules": nsched}
+            for i in range(nwl)]
+    violations = _collect(prop, ev, pool_imap(family_mut.run_job, jobs))
+    _probe_gate(prop, tier, ev)
+    return report_and_exit(prop, ev, violations)
+
+
 def run_err_family(prop, tier, seed):
     from . import family_err
     nwl, nsched = BUDGETS_ERR[tier]
@@ -209,6 +228,9 @@ def run_err_family(prop, tier, seed):
 
 
 REQUIRED_PROBES = {
+    "C20": ["inwindow_role_object", "inwindow_role_archive", "inwindow_role_thin-archive-index",
+            "inwindow_role_thin-member", "inwindow_role_linker-script", "inwindow_role_script-input",
+            "detected", "window_after-verify-start"],
     "C17": ["fault_fired_panic", "fault_fired_abort", "fault_fired_alloc", "fault_fired_segv",
             "fault_fired_kill", "fault_fired_err", "fork", "nofork"],
     "C18": ["probe_error_exit_before_creator_ran", "fault_fired_err", "prior_busy"],
@@ -270,6 +292,8 @@ def run(prop, tier, seed):
         return run_det_family(prop, tier, seed)
     if prop == "C03":
         return run_arch_family(prop, tier, seed)
+    if prop == "C20":
+        return run_mut_family(prop, tier, seed)
     if prop in FS_BUDGET:
         return run_fs_family(prop, tier, seed)
     if prop == "C26":
@@ -292,6 +316,9 @@ def replay(path):
         job = dict(rp["job"])
         job["prop"] = doc["property"]
         res = family_str.run_job(job)
+    elif fam == "mut":
+        from . import family_mut
+        res = family_mut.run_job(dict(rp["job"]))
     elif fam == "fs":
         from . import family_fs
         job = dict(rp["job"])
